@@ -92,10 +92,11 @@ Definition classify (c : cmd) (tok : bytes) : option contrib :=
       end
   end.
 
-(** the scanner proper; [pend] = the option whose value the next token must be *)
+(** the scanner proper; [pend] = the option whose value the next token must be (at the end of the line
+    the option occurs without a value: [react] then rejects it unless it has a default-missing value) *)
 Fixpoint scan (c : cmd) (pend : option (ident * arg)) (toks : list bytes) : option (list occ) :=
   match toks with
-  | [] => match pend with None => Some [] | Some _ => None end
+  | [] => match pend with None => Some [] | Some (idn, a) => Some [tok_occ idn a []] end
   | tok :: rest =>
       match pend with
       | Some (idn, a) =>
@@ -166,6 +167,10 @@ Module TokExamples.
   Proof. vm_compute. reflexivity. Qed.
   Example candidate2 : match occurrences c line2 with Some os => loop_flush line2 ps_new = fold_flush c os ps_new | None => False end.
   Proof. vm_compute. reflexivity. Qed.
+  Example candidate3 : match occurrences c line3 with Some os => loop_flush line3 ps_new = fold_flush c os ps_new | None => False end.
+  Proof. vm_compute. reflexivity. Qed.
+  Eval vm_compute in match fold_flush c (opt_default [] (occurrences c line3)) ps_new with
+    | RErr e s => Some (e_kind e, e_arg e) | _ => None end.
   Eval vm_compute in match fold_flush c (opt_default [] (occurrences c line1)) ps_new with
     | ROk s => Some (map (fun p => (fst p, m_raw (snd p))) (mt_args (mt s))) | _ => None end.
   Eval vm_compute in match fold_flush c (opt_default [] (occurrences c line2)) ps_new with
@@ -632,8 +637,10 @@ Theorem parse_loop_scan c : no_hyphen_args c = true -> ids_ok c ->
     (do s <- r; resolve_pending c s) = fold_flush c os (fold_start pend st).
 Proof.
   intros NH IDS. induction toks as [|tok rest IH]; intros pend os HS pos vaf st [SK RD].
-  - cbn [scan] in HS. destruct pend as [[idn a]|]; [discriminate|]. inversion HS; subst os.
-    exists (ROk st). split; reflexivity.
+  - cbn [scan] in HS. exists (ROk st). split; [reflexivity|]. cbn [rbind]. destruct pend as [[idn a]|]; inversion HS; subst os.
+    + destruct RD as [FA [_ HP]]. cbn [fold_start]. unfold tok_occ.
+      rewrite <- (fold_flush_pending c idn a [] None [] st HP FA). reflexivity.
+    + reflexivity.
   - cbn [scan] in HS. destruct pend as [[idn a]|].
     + (* the value of the pending option *)
       destruct (plain_value tok && negb (check_terminator a tok) && (negb (is_set s_sub_precedence c) || nosub c tok)) eqn:HV;
@@ -720,10 +727,10 @@ Module TokExamples2.
 End TokExamples2.
 
 (** * 6. What the scanner returns: command-line occurrences of arguments of the command, with no
-    value for a flag and exactly one for an option *)
+    value for a flag and one for an option (none when the line ends after the option) *)
 Definition scanned (c : cmd) (o : occ) : Prop :=
   In (o_arg o) (c_args c) /\ o_src o = SCmdLine /\ o_ti o = None /\
-  (if a_takes_value (o_arg o) then exists v, o_raw o = [v] else o_raw o = []).
+  (if a_takes_value (o_arg o) then (length (o_raw o) <= 1)%nat else o_raw o = []).
 
 Lemma simple_opt_takes_value a : simple_opt a = true -> a_takes_value a = true.
 Proof.
@@ -738,7 +745,7 @@ Proof.
   - destruct (get_short c ch) as [a|] eqn:GS; [|discriminate]. pose proof (get_short_in c ch a GS) as HIn.
     destruct (a_takes_value a) eqn:TV.
     + destruct (simple_opt a); [|discriminate]. destruct r' as [|b t]; inversion H; subst; [constructor|].
-      constructor; [|constructor]. unfold scanned. cbn [tok_occ o_arg o_src o_ti o_raw]. rewrite TV. eauto.
+      constructor; [|constructor]. unfold scanned. cbn [tok_occ o_arg o_src o_ti o_raw]. rewrite TV. cbn [length]. auto with arith.
     + destruct (scan_cluster c f r') as [[os' p']|] eqn:SC; [|discriminate]. inversion H; subst.
       constructor; [|exact (IH r' os' p SC)]. unfold scanned. cbn [tok_occ o_arg o_src o_ti o_raw]. rewrite TV. auto.
   - inversion H; subst. constructor.
@@ -751,7 +758,7 @@ Proof.
   - destruct (negb ok); [discriminate|]. destruct (get_long c f) as [a|] eqn:GL; [|discriminate].
     pose proof (get_long_in c f a GL) as HIn. destruct (a_takes_value a) eqn:TV.
     + destruct (simple_opt a); [|discriminate]. destruct v as [x|]; intros H; inversion H; subst; [|constructor].
-      constructor; [|constructor]. unfold scanned. cbn [tok_occ o_arg o_src o_ti o_raw]. rewrite TV. eauto.
+      constructor; [|constructor]. unfold scanned. cbn [tok_occ o_arg o_src o_ti o_raw]. rewrite TV. cbn [length]. auto with arith.
     + destruct v; [discriminate|]. intros H; inversion H; subst.
       constructor; [|constructor]. unfold scanned. cbn [tok_occ o_arg o_src o_ti o_raw]. rewrite TV. auto.
   - destruct (to_short tok) as [r|]; [|discriminate]. apply scan_cluster_scanned.
@@ -762,11 +769,13 @@ Lemma scan_scanned c : forall toks pend os,
   scan c pend toks = Some os -> Forall (scanned c) os.
 Proof.
   induction toks as [|tok rest IH]; intros pend os HP H; cbn [scan] in H.
-  - destruct pend as [[idn a]|]; [discriminate|]. inversion H; subst. constructor.
+  - destruct pend as [[idn a]|]; inversion H; subst; [|constructor].
+    destruct HP as [HIn SO]. constructor; [|constructor].
+    unfold scanned. cbn [tok_occ o_arg o_src o_ti o_raw]. rewrite (simple_opt_takes_value a SO). cbn [length]. auto with arith.
   - destruct pend as [[idn a]|].
     + destruct (_ && _); [|discriminate]. destruct (scan c None rest) as [os'|] eqn:SR; [|discriminate].
       inversion H; subst. destruct HP as [HIn SO]. constructor; [|exact (IH None os' I SR)].
-      unfold scanned. cbn [tok_occ o_arg o_src o_ti o_raw]. rewrite (simple_opt_takes_value a SO). eauto.
+      unfold scanned. cbn [tok_occ o_arg o_src o_ti o_raw]. rewrite (simple_opt_takes_value a SO). cbn [length]. auto with arith.
     + destruct (nosub c tok); [|discriminate]. destruct (classify c tok) as [[os1 p]|] eqn:CL; [|discriminate].
       destruct (scan c p rest) as [os2|] eqn:SR; [|discriminate]. inversion H; subst.
       apply Forall_app. split; [exact (classify_scanned c tok os1 p CL)|].
